@@ -760,8 +760,12 @@ func (p *partialCall) CallFromStack(context *Context, n int, scratch []reflect.V
 	if n+p.n == p.c.NumArgs() {
 		vm.Stack = vm.Stack[0 : len(vm.Stack)-1]
 		vm.Stack = append(vm.Stack, p.args[0:p.n]...)
+		function := expression
+		if c, ok := expression.AnyExpression.(b6.CallExpression); ok {
+			function = c.Function
+		}
 		call := b6.CallExpression{
-			Function: expression.AnyExpression.(b6.CallExpression).Function,
+			Function: function,
 			Args:     make([]b6.Expression, p.c.NumArgs()),
 		}
 		for i := 0; i < p.c.NumArgs(); i++ {
